@@ -546,6 +546,9 @@ def rule_r10(prog, res):
     res.share('R10', 'binary members are encoded over the joined chunks '
               '(C08-R5); the wrapper-key search uses the transitive subclass '
               'list (C16-R8)', 'C08', c08.rule_r14, prog, Result)
+    res.share('R10', 'binary members are encoded over the joined chunks '
+              '(C08-R5); the wrapper-key search uses the transitive subclass '
+              'list (C16-R8)', 'C08', c08.rule_r16, prog, Result)
 
 
 # ------------------------------------------------------------------ R11
